@@ -14,7 +14,8 @@ Step == l' = l + 1
 
 CaseOf(e) == [id |-> e.id, fn |-> e.fn, ar |-> e.ar, ip |-> e.ip, rnd |-> e.rnd, str |-> e.str,
               cls |-> e.cls, mode |-> e.mode, digc |-> e.digc]
-OutOf(e) == [val |-> e.val, err |-> e.err, dn |-> e.dn, hn |-> e.hn, du |-> e.du, hu |-> e.hu, det |-> e.det]
+OutOf(e) == [val |-> e.val, err |-> e.err, dn |-> e.dn, hn |-> e.hn, du |-> e.du, hu |-> e.hu, det |-> e.det,
+             dl |-> e.dl, dr |-> e.dr, hl |-> e.hl, hr |-> e.hr, hlr |-> e.hlr, hrr |-> e.hrr]
 
 TCase == /\ E.e = "Case" /\ Step /\ UNCHANGED nskip
          /\ s' = Issue(CaseOf(E))
